@@ -372,6 +372,23 @@ func runC03(r *Run) {
 			okOrder = hit == nil
 		}
 		r.check(okOrder, "RoutePatternMatch:reset-before-parse", r.fpos(rpm), "pool.Get → reset → parseRoute on every path", "a pooled routeParser can be parsed into without reset")
+		// … and is parsed on every path before it is matched with: what a pooled parser holds is the pattern of an
+		// earlier call, normalised under that call's configuration
+		okParsed := len(gets) == 1 && len(parses) >= 1
+		if okParsed {
+			isMatch := func(in ssa.Instruction) bool { return isCallTo(in, nameHasSuffix("routeParser).getMatch")) }
+			isParse := func(in ssa.Instruction) bool {
+				for _, p := range parses {
+					if in == p.Instr {
+						return true
+					}
+				}
+				return false
+			}
+			_, hit := reach(pointAfter(gets[0].Instr), isMatch, nil, isParse)
+			okParsed = hit == nil
+		}
+		r.check(okParsed, "RoutePatternMatch:parse-before-match", r.fpos(rpm), "every path from pool.Get to getMatch parses the pattern", "RoutePatternMatch can match with what a pooled parser still holds from an earlier call (the pattern is not parsed on some path): the same pattern probed under two configurations answers for the first one")
 	})
 
 	r.rule("R4", "the constant that ends a parameter is searched as a whole: a single-byte search with ComparePart[0] is reachable only when len(ComparePart) == 1, and counting and locating use the same needle (E1/E5)", func() {
